@@ -2,6 +2,7 @@
 import inspect
 from symx.api import H
 from spec import registry as REG
+from harness import c05 as C5
 from harness import c08 as C8
 from harness import c04 as C4
 
@@ -392,6 +393,11 @@ HARNESSES = [
     H('h17_4_form_codes_in_entries', C4.h_forms, lambda tier: [c for c in C4._form_instances(tier) if c['via'] in ('indirect', 'indirect2') and (c['form'] >= 0x80 or c['form'] in (0x0b, 0x0e, 0x17, 0x1a))],
       expect=('ok',),
       desc='form codes stored in entries (after DW_FORM_indirect, a ULEB128: the two-byte GNU vendor forms included) are reported under their registry names (harness shared with C04)'),
+    H('h17_6_line_content_type_names', C5.h_header,
+      lambda tier: [c for c in C5._header_instances(tier) if c['ver'] == 5 and len(c['shape'].get('file_format', [])) >= 2],
+      decoy='all', expect=('ok',),
+      desc='DW_LNCT_* content type codes of DWARF 5 line-program headers are reported under their standard names, also after another header whose entry formats '
+           'have the same forms with other content types (decoy runs; harness shared with C05)'),
     H('h17_2_tables', h_tables, lambda tier: [dict(table=i) for i in range(0, 90)], expect=('ok',),
       desc='every exported (name, value) pair whose name a registry defines: value equals a registry value (ground obligations)'),
 ]
